@@ -111,8 +111,18 @@ func (f *flattener) applies(obj *graphql.Object, fragment *graphql.Fragment) (bo
 // selections of each fragment, but does not descend down recursively into those
 // selections.
 func (f *flattener) flattenFragments(selectionSet *graphql.SelectionSet, typ *graphql.Object, target *[]*graphql.Selection) error {
-	// Start with the non-fragment selections.
-	*target = append(*target, selectionSet.Selections...)
+	// Start with the non-fragment selections. Selections excluded by @skip /
+	// @include take no part in merging (a plain field must not inherit the
+	// directives of a same-alias duplicate).
+	for _, selection := range selectionSet.Selections {
+		ok, err := graphql.ShouldIncludeNode(selection.Directives)
+		if err != nil {
+			return oops.Wrapf(err, "applying directive for selection %s", selection.Alias)
+		}
+		if ok {
+			*target = append(*target, selection)
+		}
+	}
 
 	// Descend into fragments matching the current type.
 	for _, fragment := range selectionSet.Fragments {
@@ -184,6 +194,12 @@ func mergeSameAlias(selections []*graphql.Selection) ([]*graphql.Selection, erro
 
 			seenSelections := make(map[string]struct{}, len(selection.SelectionSet.Selections))
 			for _, s := range selection.SelectionSet.Selections {
+				// An excluded selection must not shadow a later same-alias one.
+				if ok, err := graphql.ShouldIncludeNode(s.Directives); err != nil {
+					return nil, err
+				} else if !ok {
+					continue
+				}
 				// Only a repeated leaf may be dropped. Repeated selections with
 				// sub-selections can each select different children; they are
 				// merged when the combined selection set is flattened.
